@@ -310,11 +310,9 @@ impl TerminalRenderer {
                         pos.col..pos.col + size.width,
                     );
                     if covered.iter().any(|mark| mark == &CellMark::Ignored) {
-                        // overlaps with something that is already visible
-                        *new = match &new.kind {
-                            CellKind::Char(_) => Cell::new_char(new.face, ' '),
-                            _ => Cell::new_char(Face::default(), '\0'),
-                        };
+                        // overlaps with something that is already visible, show
+                        // empty cell instead (it still has to be painted)
+                        *new = Cell::new_char(new.face, ' ');
                     } else {
                         covered.fill(CellMark::Ignored);
                         covered.set(Position::origin(), mark);
@@ -422,7 +420,7 @@ impl TerminalRenderer {
             // has the same face as image cells.
             term.execute(TerminalCommand::Face(face))?;
             let size = image.size_cells(self.size.pixels_per_cell());
-            for row in pos.row..pos.row + size.height {
+            for row in pos.row..min(pos.row + size.height, self.front.height()) {
                 term.execute(TerminalCommand::CursorTo(Position::new(row, pos.col)))?;
                 term.execute(TerminalCommand::EraseChars(size.width))?;
             }
